@@ -46,7 +46,9 @@ RULE = ("random topologies (1-3 chains with explicit/absent/empty/2-char chain i
         "independent topology, in another quarter a twin differing in at most one attribute or in bond insertion order) "
         "followed by 1-7 ops from "
         "{copy, copy.copy, deepcopy, Trajectory slice, pickle (protocol 2, highest, pickled Trajectory), subset(list/array/atom_slice), join/stack(keep_resSeq), "
-        "to/from_dataframe, save+load .h5, save+load .pdb(ter), add_chain/add_residue/add_atom/add_bond/insert_atom/"
+        "to/from_dataframe, save+load .h5, save+load .pdb(ter) -- each also as a SECOND store into a carrier that already "
+        "holds another (often ==-equal twin) topology: .h5 appended (mode='a'), rewritten, topology attribute set twice; the "
+        "same .pdb path; data frames used repeatedly; the last stored topology must come back --, add_chain/add_residue/add_atom/add_bond/insert_atom/"
         "delete_atom_by_index on any topology}; observed: chain-wise dump with back pointers, _atoms/_residues list "
         "order, counters, bonds with identity facts, == and hash-equality matrices; a case is non-trivial when it "
         "has a transformation and at least two atoms; distinct by hash of the concrete op list")
@@ -171,11 +173,13 @@ def gen_tail(rng, n):
         elif k == "join":
             ops.append(["join", f(), f(), rng.random() < 0.5, rng.choice(["join", "stack"])])
         elif k == "pdb":
-            ops.append(["pdb", f(), rng.random() < 0.8])
+            ops.append(["pdb", f(), rng.random() < 0.8, f() if rng.random() < 0.4 else None])
         elif k == "pickle":
             ops.append(["pickle", f(), rng.choice(["p2", "phigh", "traj"])])
-        elif k in ("df", "h5"):
-            ops.append([k, f()])
+        elif k == "df":
+            ops.append(["df", f(), f() if rng.random() < 0.4 else None])
+        elif k == "h5":
+            ops.append(["h5", f(), f() if rng.random() < 0.5 else None, rng.choice(["a", "a", "w", "setter"])])
         else:
             e = rng.choice(["insert_atom", "insert_atom", "delete", "delete", "add_bond", "add_atom", "add_residue",
                             "add_chain"])
@@ -265,6 +269,49 @@ def gen_std_base(rng, tables):
             i, j = rng.sample(sg, 2)
             ops.append(["add_bond", 0, i, j, None, None])
     return ops
+
+
+def gen_carrier_history(rng):
+    """A topology and a twin that == cannot tell from it (other resSeq / segment id / serial / chain id, or the same
+    bonds added in another order), then the twin is stored into a carrier that already holds the first one
+    (.h5 appended / rewritten / attribute stored twice, the same .pdb path, data frames used repeatedly):
+    what comes back must be the topology stored LAST."""
+    base = gen_base(rng, 0, False)
+    twin = [list(o) for o in base]
+    for o in twin:
+        if o[0] != "new":
+            o[1] = 1
+    for _ in range(rng.choice([1, 1, 2])):
+        kind = rng.choice(["resSeq", "resSeq", "seg", "seg", "serial", "chain_id", "bond_order"])
+        if kind in ("resSeq", "seg"):
+            cand = [o for o in twin if o[0] == "add_residue"]
+            if cand:
+                o = rng.choice(cand)
+                if kind == "resSeq":
+                    o[4] = (o[4] or 0) + rng.choice([1, 10, 500])
+                else:
+                    o[5] = rng.choice([x for x in ["", "S1", "SEGB"] if x != o[5]])
+        elif kind == "serial":
+            cand = [o for o in twin if o[0] == "add_atom"]
+            if cand:
+                o = rng.choice(cand)
+                o[5] = (o[5] or 0) + 1000
+        elif kind == "chain_id":
+            cand = [o for o in twin if o[0] == "add_chain"]
+            if cand:
+                o = rng.choice(cand)
+                o[2] = rng.choice([x for x in ["A", "B", "Z"] if x != o[2]])
+        else:
+            bi = [i for i, o in enumerate(twin) if o[0] == "add_bond"]
+            if len(bi) >= 2:
+                vals = [twin[i] for i in bi][::-1]
+                for i, v in zip(bi, vals):
+                    twin[i] = v
+    second, first = 0.75, 0.25          # with two topologies: slot 1 stored after slot 0
+    car = rng.choice(["h5a", "h5a", "h5set", "h5set", "h5w", "pdb", "df"])
+    tail = {"h5a": ["h5", second, first, "a"], "h5set": ["h5", second, first, "setter"], "h5w": ["h5", second, first, "w"],
+            "pdb": ["pdb", second, rng.random() < 0.8, first], "df": ["df", second, first]}[car]
+    return {"ops": base + twin, "tail": [tail] + gen_tail(rng, rng.randint(0, 2))}
 
 
 def gen_case(rng, tables=None):
@@ -791,6 +838,7 @@ def build_cases(ctx):
     cases = [{"ops": PROBES[n][1], "concrete": True} for n in PROBE_ORDER]
     tables = ctx.run_impl("topo_impl.py", {"pdb_tables": [sorted(set(PDB_STD)), PDB_HET]})["tables"]
     cases += [gen_case(rng, tables) for _ in range(500 if quick else 10000)]
+    cases += [gen_carrier_history(rng) for _ in range(120 if quick else 2000)]
     # exhaustive small scope: every topology shape with <= 3 (quick) / 4 (thorough) atoms x every subset,
     # then an edit of the source and a copy of the subset
     for n, ops in small_topologies(3 if quick else 4):
